@@ -599,6 +599,32 @@ theorem same_service_negative_not_foreign (r : Req) (s nrc : UInt8) (rest : Byte
   rw [hs]
   simp [isNegative, positiveOf]
 
+open Gallia.UdsReq Gallia.Reply in
+/-- reply crossing within ONE service where nothing is echoed: the positive reply to another caller's ReadMemoryByAddress
+    request for a different number of bytes is foreign to this caller's request - whatever the addresses and whatever
+    address-and-length format identifiers (minimal or explicit) the two requests were built with (so `own_reply_or_error`
+    applies: it can only end this caller's request with IllegalResponse) -/
+theorem rmba_cross_is_foreign (addr addr' size size' alfid alfid' : Nat) (b : Bytes) (hne : size ≠ size')
+    (hg : Genuine (.rmba addr' size' alfid') b) (hpos : isNegative b = false) : Foreign (.rmba addr size alfid) b := by
+  unfold Genuine genuineB at hg
+  unfold Foreign foreignB
+  simp only [Reply.reqSid, encode] at hg ⊢
+  simp only [List.cons_append, List.head?_cons, hpos, Bool.false_and, Bool.false_or, Bool.and_eq_true] at hg ⊢
+  obtain ⟨hd, hp, he⟩ := hg
+  simp only [view, echoOK, beq_iff_eq] at he
+  simp [hp, hd, view, echoOK, he]
+  omega
+
+open Gallia.UdsReq Gallia.Reply in
+/-- the caveat, made explicit: a reply genuine to a ReadMemoryByAddress request is genuine to EVERY ReadMemoryByAddress
+    request for the same number of bytes (the reply carries neither address nor format identifier): such a late reply
+    cannot be told from the caller's own by anybody -/
+theorem rmba_same_size_indistinguishable (addr addr' size alfid alfid' : Nat) (b : Bytes)
+    (hg : Genuine (.rmba addr' size alfid') b) : Genuine (.rmba addr size alfid) b := by
+  unfold Genuine genuineB at hg ⊢
+  simp only [Reply.reqSid, encode, List.cons_append, List.head?_cons, view, echoOK] at hg ⊢
+  exact hg
+
 /-! ### the tester-present worker -/
 
 open Gallia.Client Gallia.ClientIO in
@@ -731,6 +757,14 @@ example : (requestX (exCfg 1) (exScript [] [.mismatch] [])).out = .base (.illega
 open Gallia.Reply in
 example : Foreign (.rdbi [0x1001]) [0x62, 0x10, 0x00, 0xAB] ∧ Genuine (.rdbi [0x1000]) [0x62, 0x10, 0x00, 0xAB] ∧
     (Req.rdbi [0x1001]).WF ∧ classify (.rdbi [0x1001]) [0x62, 0x10, 0x00, 0xAB] = .mismatch := by decide +kernel
+
+open Gallia.Reply in
+/-- hypotheses of `rmba_cross_is_foreign` with an explicit, non-minimal format identifier (0x24: 4 address bytes, 2 size bytes): the reply to
+    "4 bytes at 0x1000" is foreign to "8 bytes at 0x2000", the request bytes decode to that typed request, the matcher refuses it -/
+example : Genuine (.rmba 0x1000 4 0x24) [0x63, 0x10, 0x11, 0x12, 0x13] ∧ isNegative [0x63, 0x10, 0x11, 0x12, 0x13] = false ∧
+    Foreign (.rmba 0x2000 8 0x24) [0x63, 0x10, 0x11, 0x12, 0x13] ∧ (Req.rmba 0x2000 8 0x24).WF ∧
+    classify (.rmba 0x2000 8 0x24) [0x63, 0x10, 0x11, 0x12, 0x13] = .mismatch ∧
+    decode [0x23, 0x24, 0, 0, 0x20, 0, 0, 8] = .rmba 0x2000 8 0x24 := by decide +kernel
 
 /-- hypotheses of `cancel_safe`, `stop_terminates`, `progress_multi` (c): after this prefix the worker waits for the client
     held by 1 with 2 ahead of it, and 4 is about to stop it -/
